@@ -16,6 +16,10 @@ type Case struct {
 	Branchable   bool   `json:"branchable"` // collection-level commits: merges go through the schema-root queue
 	P2P          bool   `json:"p2p"`        // node has a libp2p peer; replicator changes are part of the call mix
 	SharedTxn    bool   `json:"shared_txn"` // goroutines flagged in TxnUser issue all their calls through one NewConcurrentTxn
+	// SharedCtx: the users of the shared transaction also share ONE context, made once by
+	// db.InitContext(ctx, txn) (as a caller holding a transaction typically does), instead of
+	// initialising a context per call.
+	SharedCtx bool `json:"shared_ctx,omitempty"`
 	TxnUser      []bool `json:"txn_user"`
 	Disjoint     bool   `json:"disjoint"`       // shared-transaction users write only documents no other goroutine writes
 	Warm         bool   `json:"warm"`           // one sequential request of every shape before the goroutines start
@@ -166,6 +170,7 @@ func drawCase(t *rapid.T, maxOps int) Case {
 			c.Docs = 2
 		}
 	}
+	c.SharedCtx = c.SharedTxn && rapid.Bool().Draw(t, "sharedCtx")
 	c.TxnUser = make([]bool, c.G)
 	if c.SharedTxn {
 		n := 0
